@@ -337,7 +337,7 @@ P["C20"] = {
         "hang / stack exhaustion = a path exhausting the executor's per-path instruction or call-depth budget (reported as a violation); wall-clock time and RSS are not measured",
         "native confirmation of an allocation counterexample: the replay allocates more than 8x the policy (runtime.MemStats.TotalAlloc) or the process dies with 'out of memory'"],
     "bounds": "GRB stream of template tiny (8 KB, 133 eight-byte fields; thorough: template two, 24 KB): every 8-byte field (length prefix, element count, node type, salience, float payload, value type) replaced, one at a time, by 8 fully symbolic bytes; the head of every longer read (nested length prefix of string constants, text, snapshots - symbolic strings as map keys are resolved by forking against the keys present) likewise; salience literal: every int64; JSON rule translator: 24 rule shapes incl. wrong types at every position, nesting depth 1100; truncation of the GRB stream at every offset (C12's run)",
-    "outside": "GRL text through the ANTLR lexer/parser and JSON facts / JSON rule TEXT through encoding/json on symbolic bytes (not reachable by this technique, DESIGN §9); mutations that edit more than one field or splice strings; time and memory are bounded symbolically (loop/alloc bounds), not measured",
+    "outside": "GRL text through the ANTLR lexer/parser and JSON fact / JSON rule TEXT through encoding/json on SYMBOLIC bytes (not reachable by this technique, DESIGN §9; concrete corpora only); mutations that edit more than one field or splice strings; time and memory are bounded symbolically (loop/alloc bounds), not measured",
     "runs": [dict(tierC("VerifC20Field", "tiny", [0, -1], QT, ["c20:load-returned", "c20:field-mutated"], "every 8-byte field of template tiny's stream replaced by symbolic bytes"),
                   extra_label_prefixes=["alloc-bounded:"], replay_each_in_own_process=True, compare_events=True),
              dict(tierC("VerifC20Splice", "tiny", [], QT, ["c20:splice-load-returned", "c20:id-spliced"], "every id-sized string of template tiny's stream replaced, one at a time, by the id of the node being read (a node naming itself as its child): the loader terminates within the budget"),
@@ -348,6 +348,9 @@ P["C20"] = {
                   extra_label_prefixes=["alloc-bounded:"], replay_each_in_own_process=True),
              dict(tierC("VerifC20SnapshotLinear", "s_shapes", [], QT, ["c20:snapshot-nodes-walked"], "GRL text part: for every node (333, every alternative of the expression grammar) of template s_shapes as built by the real parser, the node's snapshot is no longer than 32 + 4 per child + 6x its own identifier text + the snapshots of its direct children - by induction snapshots (computed by the listener for every node) stay linear in the text; CONCRETE enumeration of nodes executed from SSA, not solver-quantified"), no_native=False),
              dict(tierC("VerifC20SnapshotCost", "s_deep", [], QT, ["c20:snapshot-cost-measured"], "GRL text part: computing the snapshot of each of 11 rules with 12-16 levels of every nesting construct (negation, parentheses, selectors, method / member chains, nested calls and selectors, deep sums) costs at most 600 SSA instructions per byte of rule text (measured: 11-27) - a node kind that evaluates a child's snapshot twice is exponential in the depth; CONCRETE inputs, cost counted by the executor (natively: time)"), replay_each_in_own_process=True),
+             {"name": "json-fact-text", "pkgdir": "zztier", "harness": TIERC_H, "entry": "VerifC20JSONFacts", "tiers": QT, "templates": ["j_basic.grl"], "require_reach": ["c20:json-fact-text", "c20:json-fact-accepted"],
+              "extra_label_prefixes": ["C14:no-panic-escapes"],
+              "bounds": "DataContext.AddJSON on a structure-aware corpus of 44 CONCRETE JSON fact texts (empty / truncated / scalars and arrays at the root / null and wrong kinds at every position template j_basic reads or writes / huge numbers / nesting 200, 5000, 20000) followed by a 3-cycle run of j_basic on whatever was accepted; json.Unmarshal native, JSONValueNode from SSA; enumeration, not solver-quantified"},
              dict(salienceK(QT), name="salience-literal"),
              {"name": "c18-malformed", "pkgdir": "pkg", "harness": [["pkg", "harness/pkg"]], "entry": "VerifC18Malformed", "tiers": QT, "require_reach": ["c18:malformed-case"], "bounds": "24 JSON rule shapes through pkg.ParseRule"},
              {"name": "json-rule-text", "pkgdir": "pkg", "harness": [["pkg", "harness/pkg"]], "entry": "VerifC20JSONText", "tiers": QT, "require_reach": ["c20:json-text"],
